@@ -99,6 +99,11 @@ def machines(model):
             f = l[2:].split("|", 2)
             if len(f) == 3:
                 cur["R"].append({"class": f[0], "where": f[1], "message": f[2]})
+        elif l.startswith("U "):
+            # files whose literal generate-for loops were unrolled, with the registers assigned bit-wise in them
+            for item in l[2:].split():
+                fn, _, regs = item.partition(":")
+                cur.setdefault("U", {})[fn] = [r for r in regs.split(",") if r]
         elif l.startswith("S "):
             cur["S"].append(l[2:])
         elif l.startswith("N "):
@@ -113,8 +118,16 @@ def findings_of(m):
         fs.append({"class": "generator", "where": "Write_verilog", "message": m["W"]})
     for p in m["P"]:
         fs.append(dict(p))
+    bitwise = {}
+    for fn, regs in (m.get("U") or {}).items():
+        bitwise[fn[:-2] if fn.endswith(".v") else fn] = set(regs)
     for r in m["R"]:
         if r["class"] == "follow-on":
+            continue
+        mm = re.match(r"^\[multi-driver\] reg (\w+) is assigned in more than one always block$", r["message"])
+        if r["class"] == "multi-driver" and mm and mm.group(1) in bitwise.get(r["where"], set()):
+            # one always block per bit of the register after unrolling a generate loop: legal Verilog;
+            # `Design.lint` counts drivers per signal, not per bit
             continue
         fs.append(dict(r))
     for s in m["S"]:
